@@ -92,6 +92,18 @@ class C10(Prop):
                          rng.choice([None, None, t[0][-1], (t[0][0], t[0][-1])]))
                 yield Case('dedup', ('conflicts', key, False, bs, t, extra))
                 yield Case('isunique', (key, t))
+        # directed: values that differ but hash alike are not repeats; include / exclude given as a bare string name whole fields
+        for vals in ((-1, -2), (-1.0, -2.0), (0, 2 ** 61 - 1), (-1, -2, 5), (('x', -1), ('x', -2))):
+            t = (('k', 'v'),) + tuple((v, i) for i, v in enumerate(vals))
+            yield Case('isunique', ('k', t))
+            yield Case('isunique', (('k', 'v'), t))
+            for opn in ('duplicates', 'unique', 'distinct'):
+                yield Case('dedup', (opn, 'k', False, None, t, None))
+        tc = (('k', 'x', 'qux', 'id', 'valid'), (1, 'a', 'p', 0, 'u'), (1, 'b', 'p', 0, 'u'), (2, 'a', 'p', 0, 'u'), (2, 'a', 'q', 0, 'u'),
+              (3, 'a', 'p', 0, 'u'), (3, 'a', 'p', 1, 'u'), (4, 'a', 'p', 0, 'u'), (4, 'a', 'p', 0, 'w'))
+        for inc, exc in (('qux', None), (None, 'qux'), ('valid', None), (None, 'valid'), ('x', None), (None, 'id'), (('qux',), None),
+                         (None, ('valid', 'x'))):
+            yield Case('dedup', ('conflicts', 'k', False, None, tc, (None, exc, inc)))
         # header-only / single-row tables, explicitly
         for hdr in (('a',), ('a', 'b'), ('a', 'b', 'c')):
             for rows in ((), ((1,) * len(hdr),)):
@@ -141,6 +153,8 @@ class C10(Prop):
                 return False
             if len(set(t[0])) != len(t[0]):
                 return False
+            if case.op == 'dedup' and case.arg[0] == 'conflicts' and not (isinstance(case.arg[5], tuple) and len(case.arg[5]) == 3):
+                return False
             return all(len(r) == len(t[0]) for r in t[1:])
         except Exception:
             return False
@@ -158,7 +172,55 @@ class C10(Prop):
             opn, key, pre, bs, t, extra = case.arg
             if (key is None or self._key_ok(key, t[0])) and impl_obs[0] != 'li':
                 return False
+            if opn == 'conflicts' and impl_obs[0] == 'li' and key is not None and self._key_ok(key, t[0]):
+                # two rows with the same key come back exactly when they disagree on a field that counts (include / exclude name
+                # whole fields, whether given as a string or as a list; cells equal to `missing` never disagree)
+                try:
+                    want = self._conflicts_ref(key, t, extra)
+                except Exception:
+                    return None
+                if want is not None and sorted(map(repr, codec.uncanon(impl_obs)[1:])) != sorted(map(repr, want)):
+                    return False
+        if case.op == 'isunique' and impl_obs in (codec.t_bool(True), codec.t_bool(False)):
+            # isunique says there is no repeated key: exactly when duplicates() has no rows
+            import petl as etl
+            key, t = case.arg
+            try:
+                ndup = len(list(etl.duplicates([list(r) for r in t], key))) - 1
+            except Exception:
+                return None
+            return (impl_obs == codec.t_bool(True)) == (ndup == 0)
         return None
+
+    def _conflicts_ref(self, key, t, extra):
+        from petl.comparison import Comparable
+        missing, exclude, include = extra
+        hdr = list(t[0])
+        ks = key if isinstance(key, tuple) else (key,)
+        kidx = [k if isinstance(k, int) else hdr.index(k) for k in ks]
+        norm = lambda x: None if x is None else (tuple(x) if isinstance(x, (list, tuple)) else (x,))   # noqa
+        inc, exc = norm(include), norm(exclude)
+        if inc is not None and not all(f in hdr for f in inc) or exc is not None and not all(f in hdr for f in exc):
+            return None
+        counted = [i for i, f in enumerate(hdr) if i not in kidx and (inc is None or f in inc) and (exc is None or f not in exc)]
+        groups = []
+        for r in t[1:]:
+            kv = tuple(r[i] for i in kidx)
+            for g in groups:
+                if Comparable(g[0]) == Comparable(kv):
+                    g[1].append(tuple(r))
+                    break
+            else:
+                groups.append((kv, [tuple(r)]))
+        out = []
+        for kv, rows in groups:
+            # petl compares neighbouring rows of the sorted group and returns the rows of disagreeing pairs; that is
+            # unambiguous for groups of at most two rows, the only ones judged here
+            if len(rows) > 2:
+                return None
+            if len(rows) == 2 and any(rows[0][i] != rows[1][i] and rows[0][i] != missing and rows[1][i] != missing for i in counted):
+                out.extend(rows)
+        return out
 
     def spec_case(self, case, impl_obs):
         if case.op != 'dedup' or case.arg[0] != 'duplicates' or not self.valid(case) or impl_obs[0] != 'li':
